@@ -18,28 +18,9 @@ func init() {
 		"kai/state/cstate/execution.go", "kai/state/cstate/validation.go", "blockchain/processor.go", "blockchain/processor_context.go"}, runC01)
 }
 
-func runC01(c *Ctx) {
-	c.Decided = []string{
-		"finalizeCommit saves/end-marks/applies a block only behind +2/3 precommits of CommitRound for a block id whose hash and parts header match the block in hand, and behind ValidateBlock",
-		"tryFinalizeCommit/enterCommit are entered only behind a non-nil +2/3 precommit majority; enterCommit is called only from addVote inside that branch",
-		"the seen commit saved with the block is built from the same precommit set whose majority was tested",
-		"block sync saves and applies block H only behind verifyCommit(chainID, id(H), H, LastCommit(H+1)) == nil against the current validator set, and the id verified is the id applied",
-		"ApplyBlock / SaveBlock are reachable only from the consensus commit path and the block-sync processor",
-		"validateBlock is a complete checklist; BlockExecutor.ValidateBlock returns nil only from validateBlock or its cache",
-	}
-	c.NotDec = []string{"agreement across nodes under arbitrary interleavings and adversaries (history-quantified)", "validator-set changes across heights", "the quorum arithmetic itself (C02) and locking rules (C03), imported by reference"}
-	c.Floors["G"] = 25
-	c.Floors["W"] = 3
-
-	c01CommitPath(c)
-	validateBlockChecklist(c)
-	// imported: a correct node keeps its lock (C03) and a commit certificate is a verified +2/3 for one block id (C02)
-	lockRules(c)
-	verifyCommitRules(c)
-	voteAdmissionRules(c)
-	tallyRules(c)
-	validatorSetRoles(c)
-
+// blockSyncRules: a block received by block sync is saved and applied only when the NEXT block's last commit verifies for
+// the id computed from the received block itself. Shared by C01 and C02 (a +2/3 commit for one id justifies nothing else).
+func blockSyncRules(c *Ctx) {
 	// ---- block sync -----------------------------------------------------------------------------
 	if fn := c.Fn("blockchain", "pcState", "handle"); fn != nil {
 		first := `call:\(\*blockchain\.pcState\)\.nextTwo\(state\)#0\.block`
@@ -114,6 +95,31 @@ func runC01(c *Ctx) {
 		c.Check("F", fnName(fn)+"/returns ApplyBlock's error", ok, fn.Pos(), len(rets), "")
 	}
 
+}
+
+func runC01(c *Ctx) {
+	c.Decided = []string{
+		"finalizeCommit saves/end-marks/applies a block only behind +2/3 precommits of CommitRound for a block id whose hash and parts header match the block in hand, and behind ValidateBlock",
+		"tryFinalizeCommit/enterCommit are entered only behind a non-nil +2/3 precommit majority; enterCommit is called only from addVote inside that branch",
+		"the seen commit saved with the block is built from the same precommit set whose majority was tested",
+		"block sync saves and applies block H only behind verifyCommit(chainID, id(H), H, LastCommit(H+1)) == nil against the current validator set, and the id verified is the id applied",
+		"ApplyBlock / SaveBlock are reachable only from the consensus commit path and the block-sync processor",
+		"validateBlock is a complete checklist; BlockExecutor.ValidateBlock returns nil only from validateBlock or its cache",
+	}
+	c.NotDec = []string{"agreement across nodes under arbitrary interleavings and adversaries (history-quantified)", "validator-set changes across heights", "the quorum arithmetic itself (C02) and locking rules (C03), imported by reference"}
+	c.Floors["G"] = 25
+	c.Floors["W"] = 3
+
+	c01CommitPath(c)
+	validateBlockChecklist(c)
+	// imported: a correct node keeps its lock (C03) and a commit certificate is a verified +2/3 for one block id (C02)
+	lockRules(c)
+	verifyCommitRules(c)
+	voteAdmissionRules(c)
+	tallyRules(c)
+	validatorSetRoles(c)
+
+	blockSyncRules(c)
 	// ---- W: who may apply / save -------------------------------------------------------------------
 	c.OnlyCalledFrom("ApplyBlock only from finalizeCommit and block sync", `BlockExecutor\)\.ApplyBlock$|blockApplier\)\.ApplyBlock$`, 2,
 		`^`+csT+`\.finalizeCommit$`, `^\(\*blockchain\.pContext\)\.applyBlock$`)
